@@ -43,6 +43,7 @@ type Result struct {
 	Tape    []Choice
 	Trouble string
 	Info    map[string]any
+	KnownHits map[string]int
 }
 
 const deadlockText = "deadlock: main bubble goroutine has exited"
@@ -138,5 +139,6 @@ func RunOne(t *testing.T, w World, prop, tier string, tape *Tape, ix uint64) *Re
 	res.Log = k.Log
 	res.Tape = tape.Rec
 	res.Info = k.Info
+	res.KnownHits = k.KnownHits
 	return res
 }
